@@ -56,6 +56,8 @@ def multiplicities(big=True):
         small,
         small,
         st.sampled_from([CEIL - 2, CEIL - 1, CEIL, CEIL + 1, CEIL + 2, 2**31, 2**33, 2**40, (CEIL // 2), (CEIL // 2) + 1]),
+        # storage-width boundaries: a counter or total landing exactly on 2^8, 2^16, 2^24, 2^31
+        st.sampled_from([255, 256, 257, 65535, 65536, 65537, 2**24 - 1, 2**24, 2**24 + 1, 2**31 - 1, 2**31 + 1, 128, 32768]),
     )
 
 
